@@ -280,6 +280,38 @@ func countBlock(spec *common.Spec, c Counters, ev *blockEvent, pre *absstate.Sta
 			c.Add("attester_slashing_with_unslashable_member", 1)
 		}
 	}
+	// signature-byte shape x {new pubkey, top-up}: the spec verifies the signature of new pubkeys only
+	{
+		known := map[string]bool{}
+		for i := range pre.Validators {
+			known[pre.Validators[i].Pk] = true
+		}
+		for _, d := range b.Deposits {
+			shape := d.SigShape
+			if shape == "decodable" {
+				shape = "wrong"
+				if len(d.Sig.Signers) == 1 && d.Sig.Signers[0] == d.Pk && d.Sig.Msg == d.MsgRoot && d.Sig.Dom == "03000000" {
+					shape = "valid"
+				}
+			}
+			if known[d.Pk] {
+				c.Add("dep_block_topup_"+shape, 1)
+			} else {
+				c.Add("dep_block_new_"+shape, 1)
+				if shape == "valid" {
+					known[d.Pk] = true
+				}
+			}
+		}
+		for i := len(pre.Validators); i < len(post.Validators); i++ {
+			for _, d := range b.Deposits {
+				if d.Pk == post.Validators[i].Pk && d.SigShape != "decodable" {
+					// cannot happen by the specification; counted so that it would be visible
+					c.Add("dep_block_validator_created_from_undecodable_signature", 1)
+				}
+			}
+		}
+	}
 	// deposits to existing validators (top-ups): of an exited validator / marks for the hysteresis class
 	for _, d := range b.Deposits {
 		for i := range pre.Validators {
